@@ -127,6 +127,8 @@ func (h *harness) judge(c *engine.Case, modelReply string) verdict {
 		}
 		if d := sameObs(real, mo); d != "" {
 			v.Class, v.Cat, v.What = "correspondence", strings.SplitN(d, ":", 2)[0], d
+		} else if d := engine.SpecCheck(c, real, mo); d != "" {
+			v.Class, v.Cat, v.What = "correspondence", "spec", "Lean reference semantics vs implementation: "+d
 		}
 	}
 	return v
@@ -165,6 +167,9 @@ func (h *harness) record(c *engine.Case, v verdict, source string) {
 	}
 	h.run.Oblige("executor correspondence (data, ordered errors, idle rounds, promises created) vs Lean ExecAsync", "correspondence", 1, v.Class != "correspondence", v.What)
 	h.run.Oblige("oracle: every schedule = all-sync run on data and required errors; no duplicate error; no blank/missing key; rounds ≤ promises; no crash", "oracle", 1, v.Class != "property" && v.Class != "crash", v.What)
+	if v.Model != nil && v.Model.HasSpec {
+		h.run.Oblige("Lean reference semantics (Spec.data, Spec.required ⊆ errors ⊆ Spec.errsF) vs the implementation's output", "correspondence", 1, !(v.Class == "correspondence" && v.Cat == "spec"), v.What)
+	}
 	if v.Class == "" {
 		return
 	}
